@@ -191,6 +191,24 @@ def pl_skdm_protocol(r):
     return m
 
 
+def pl_skdm_unknown_field(r):
+    """key distribution + a payload kind the library's converter does not model at all (call / chat / contacts array /
+    highly structured message): the converter's view of it is indistinguishable from a pure key distribution"""
+    m = pl_skdm_only(r)
+    k = r.randint(0, 3)
+    if k == 0:
+        m.call.call_key = r.randbytes(16)
+    elif k == 1:
+        m.chat.display_name = rtxt(r)
+        m.chat.id = rid(r)
+    elif k == 2:
+        m.contacts_array_message.display_name = rtxt(r)
+    else:
+        m.highly_structured_message.namespace = rtxt(r)
+        m.highly_structured_message.element_name = rtxt(r)
+    return m
+
+
 def message_node(r, mtype, payload, mediatype=None, group=None):
     group = r.random() < .4 if group is None else group
     a = attrs(type=mtype, id=rid(r), t=rts(r), from_=rgjid(r) if group else rjid(r),
@@ -266,6 +284,10 @@ _text("unsupported.unknown-field", pl_unknown_field, None, answers=[ans_delivery
 _text("unsupported.empty", pl_empty, None, answers=[ans_delivery_receipt], c07="unsupported")
 _text("unsupported.skdm+protocol", pl_skdm_protocol, None, answers=[ans_delivery_receipt], c07="unsupported",
       note="retry resend of content the library cannot present (repaired finding: used to be dropped silently)")
+
+_text("unsupported.skdm+unknown-field", pl_skdm_unknown_field, None, answers=[ans_delivery_receipt], c07="unsupported",
+      note="key distribution + content the converter does not model: not a pure key distribution, receipt due "
+           "(not a row of the Coq kind table; covered by the generic theorem C07_unsupported_message)")
 
 MEDIA = [("image", pl_image, "ImageDownloadableMediaMessageProtocolEntity"),
          ("sticker", pl_sticker, "StickerDownloadableMediaMessageProtocolEntity"),
